@@ -228,6 +228,14 @@ func (p *Parser) ParseExpressionWithPrecedence(precedence int) ast.Expression {
 
 func (p *Parser) ParseRemainingExpressionWithPrecedence(left ast.Expression, precedence int) ast.Expression {
 	for p.PeekToken.Type != token.SEMICOLON && precedence < p.peekPrecedence() {
+		// Restricted production: no line terminator is allowed between an operand
+		// and a postfix ++ / --; after a line break they start a new statement
+		if p.PeekToken.AfterNewline {
+			switch p.PeekToken.Type {
+			case token.INCREMENT, token.DECREMENT:
+				return left
+			}
+		}
 		// Smart semicolon insertion: prevent LPAREN and LBRACKET after newline from continuing expression
 		// https://eslint.org/docs/latest/rules/no-unexpected-multiline
 		if p.smartSemicolons && p.PeekToken.AfterNewline {
